@@ -6,7 +6,7 @@ import types
 
 import z3
 
-from .engine import (Unsupp, PathEnd, RaiseExc, ReturnExc, BreakExc, ContinueExc, T, Int, Bool, Float, RecT, SeqT, FloatV, Rec,
+from .engine import (UFunc, Unsupp, PathEnd, RaiseExc, ReturnExc, BreakExc, ContinueExc, T, Int, Bool, Float, RecT, SeqT, FloatV, Rec,
                      PyList, SeqV, Opaque, ExcValue, BoundMethod, FuncRef, ClassInfo, World, Ctx, fresh, is_sym_int,
                      is_sym_bool, is_intlike, to_int_term, to_bool_term, py_floordiv, py_mod, real_of, seq_of, LabelSort)
 
@@ -90,7 +90,7 @@ class Interp:
             if "__len__" in v.cls.methods:
                 return self.truthy(self.call_method(v, "__len__", [], {}))
             return True
-        if isinstance(v, (FuncRef, Closure, BoundMethod, Opaque)):
+        if isinstance(v, (FuncRef, Closure, BoundMethod, Opaque, UFunc)):
             return True
         if isinstance(v, dict):
             return len(v) > 0
@@ -551,7 +551,11 @@ class Interp:
                 return BoundMethod(obj, attr)
             raise Unsupp(f"class attribute {ci.name}.{attr}")
         if isinstance(obj, Opaque) and obj.what.startswith("module:"):
-            return FuncRef("builtin", obj.what.split(":")[1] + "." + attr)
+            full = obj.what.split(":")[1] + "." + attr
+            consts = getattr(self.world, "module_values", {})
+            if full in consts:
+                return consts[full]
+            return FuncRef("builtin", full)
         if isinstance(obj, (PyList, SeqV, FloatV, tuple, dict, str, float)) or is_intlike(obj):
             return BoundMethod(obj, attr)
         if isinstance(obj, FuncRef) and obj.kind == "builtin":
@@ -835,6 +839,10 @@ class Interp:
             return self.call_bound(f, args, kwargs, node)
         if isinstance(f, Closure):
             return self.call_closure(f, args, kwargs)
+        if isinstance(f, UFunc):
+            xs = [real_of(a) for a in args]
+            f.calls.append(xs)
+            return FloatV(f(*xs))
         if isinstance(f, FuncRef):
             if f.kind == "class":
                 return self.instantiate(f.info, args, kwargs)
